@@ -299,7 +299,7 @@ func RenderFile(f File, pkgName, importPath string, mageTag bool) string {
 	if f.HasAl {
 		b.WriteString("var Aliases = map[string]interface{}{\n")
 		for _, a := range f.Aliases {
-			fmt.Fprintf(&b, "\t%q: %s,\n", a.Key, a.Ref.Go())
+			fmt.Fprintf(&b, "\t\"%s\": %s,\n", a.Key, a.Ref.Go()) // Key is source text (plain keys need no escaping)
 		}
 		b.WriteString("}\n\n")
 	}
@@ -348,6 +348,10 @@ type Gen struct {
 	Imports    bool // mage:import packages
 	TagShapes  bool // vary comment groups around the tag (C19)
 	Platform   bool // imported packages get host-only files (name suffix) and files for a foreign platform (C19, C11)
+	// alias keys written with escape sequences.  AliasEntry.Key is the *source text* between the quotes (what
+	// parse.lit2string returns and the template pastes back between quotes); only for projects that are parsed and
+	// generated, not run: the model's dispatch does not interpret escapes
+	EscapedAliases bool
 }
 
 var nameParts = []string{"Build", "Test", "Deploy", "Clean", "Lint", "Run", "Gen", "Docs", "Pack", "Ship", "URL", "DBSync", "HTTPGet", "A", "Ab", "ABc", "Fmt2", "X_y",
@@ -810,6 +814,9 @@ func (g *Gen) Generate(id int) *Project {
 		usedA := map[string]bool{}
 		for i := 0; i < 1+r.Intn(3); i++ {
 			key := []string{"b", "t", "dd", "Go", "xx", "q1", "rel"}[r.Intn(7)]
+			if g.EscapedAliases && r.Chance(1, 2) {
+				key = []string{`b\\c`, `the \"big\" one`, `tab\there`, `q\x41`}[r.Intn(4)]
+			}
 			if usedA[key] {
 				continue
 			}
